@@ -18,6 +18,9 @@ fn maxlen(kind: &str) -> u64 {
 	let top = if P::MAX as u64 > 255 { 300 } else { 254 };
 	if kind == "WSMA" {
 		127.min(top)
+	} else if matches!(kind, "EMA" | "DMA" | "TMA" | "DEMA" | "TEMA" | "RMA" | "SWMA") {
+		// these accept PeriodType::MAX itself
+		top.max(255)
 	} else {
 		top
 	}
